@@ -129,7 +129,7 @@ pub fn generate(seed: u64, tier: Tier) -> Scenario {
         let addr = sess::gen_key_addr(r, NKEYS, byron_pm);
         let extra_min = sess::approx_min_ada(&knobs, 50 * assets.len() as u64) - sess::approx_min_ada(&knobs, 0);
         let coin = coin.max(min_utxo + if assets.is_empty() { 0 } else { extra_min + sess::approx_min_ada(&knobs, 0) / 4 });
-        w.utxos.push(Utxo { tx: if r.chance(1, 6) { tx / 2 } else { tx }, ix: r.below(4) as u32 + tx % 3 * 4, addr, coin, empty_ma: assets.is_empty() && r.chance(1, 15), assets, datum: None, script_ref: None });
+        w.utxos.push(Utxo { tx: if r.chance(1, 6) { tx / 2 } else { tx }, ix: r.below(4) as u32 + tx % 3 * 4, addr, coin, empty_ma: if assets.is_empty() { r.chance(1, 15) } else { r.chance(1, 40) }, assets, datum: None, script_ref: None });
         w.utxos.len() - 1
     };
     let mut gen_amount = |r: &mut Rng, k_hint: u64| -> u64 {
@@ -249,7 +249,7 @@ pub fn generate(seed: u64, tier: Tier) -> Scenario {
         }
         _ => ops.push(Op::Select(strategy, off_ids.clone())),
     }
-    Scenario { knobs, world: w, ops, rng: sess::gen_rng_plan(&mut rr), hash_seed: rh.next(), profile: format!("c08/{}/{:?}/tight{}", prof, strategy, tight), alt_values: 0 }
+    Scenario { knobs, world: w, ops, rng: sess::gen_rng_plan(&mut rr), hash_seed: rh.next(), profile: format!("c08/{}/{:?}/tight{}", prof, strategy, tight), alt_values: if rh.chance(1, 4) { 1 + rh.below(250) as u8 } else { 0 } }
 }
 
 fn name_key(n: &[u8]) -> (usize, Vec<u8>) {
